@@ -288,4 +288,36 @@ def rule_f(ctx):
     return r
 
 
-RULES = [rule_a, rule_b, rule_c, rule_d, rule_e, rule_f]
+
+def rule_g(ctx):
+    r = RuleResult("C16-g", "printing `lhs op rhs` inside a calculation: an interpolated left operand is always parenthesised (its text may be a sum), an operation on "
+                   "the left by precedence(); the decision has an arm of its own for Interpolation")
+    prog = ctx.prog()
+    b = prog.one("serializer::Serializer::write_calculation_arg")
+    found = None
+    for sw, ap, adt, variants, rv in common.discr_switches(b):
+        if (adt or "").endswith("calculation::CalculationArg") and "lhs" in repr(ap):
+            t = b.term(sw)
+            arms = {variants.get(v): tb for v, tb in t["ts"]}
+            if "Operation" in arms:
+                found = (sw, arms, t["else"])
+    if found is None:
+        raise AnchorMissing("write_calculation_arg: no match on the left operand's kind")
+    sw, arms, els = found
+    key = "write_calculation_arg|interpolated-lhs-parenthesised"
+    ok = False
+    if "Interpolation" in arms and arms["Interpolation"] != els:
+        vals = common.local_const_assigns(b, arms["Interpolation"]) if hasattr(common, "local_const_assigns") else None
+        # the arm assigns the constant true to the flag that guards the pushes of '(' and ')'
+        for s_ in b.stmts(arms["Interpolation"]):
+            if s_["k"] == "assign" and s_["rv"].get("k") == "use" and s_["rv"]["op"].get("k") == "const" and Operand(s_["rv"]["op"]).const_value() is True:
+                ok = True
+    if ok:
+        r.ok(key)
+    else:
+        r.violate(key, "write_calculation_arg no longer parenthesises an interpolated left operand: `calc((#{$g}) / 3)` with $g: \"100% - 4em\" is printed as "
+                  "`calc(100% - 4em / 3)`, a different quantity", b.loc())
+    return r
+
+
+RULES = [rule_a, rule_b, rule_c, rule_d, rule_e, rule_f, rule_g]
